@@ -3,7 +3,7 @@
 (* locked values (util/lock.go) are searched for a linearization.              *)
 (*                                                                              *)
 (* Log format (ndjson), many histories separated by Reset:                      *)
-(*   {"a":"Reset", ...}                                                         *)
+(*   {"a":"Reset","i":12,"n":31, ...}   i = history number, n = its events      *)
 (*   {"a":"Call","c":7,"op":"Set","k":"k2","md":"inc","v":3,"r":[0,1,3,0,0]}    *)
 (*        logged (global order) before the real call starts; r = what the call  *)
 (*        answered, attached afterwards (it prunes the search, it is not known  *)
@@ -13,7 +13,9 @@
 (*        Len() and the content of Map()                                        *)
 (* Lin(c) is the internal linearization point of call c, anywhere between its  *)
 (* Call and its Ret: the sequential map of LockedMap.tla must give the answer   *)
-(* the real call gave. The history is linearizable iff TLC can consume it.      *)
+(* the real call gave. A history is linearizable iff some path consumes all of  *)
+(* its events; GiveUp lets the search go on with the next history, the numbers  *)
+(* of the histories without a linearization are printed at the end (NOTLIN).    *)
 (* LenStrict = FALSE leaves the answers of Len calls made during the history    *)
 (* unconstrained (the statement constrains the length after the operations      *)
 (* finished); TravStrict = FALSE does the same for Traverse (diagnosis only).   *)
@@ -24,8 +26,10 @@ CONSTANTS MaxCalls, LenStrict, TravStrict
 Trace == ndJsonDeserialize("trace.ndjson")
 VARIABLES l,       \* next trace line
           at,      \* call id -> line of its Call event (0: not pending)
-          lin      \* pending calls that have taken effect
-tvars == <<m, closed, l, at, lin>>
+          lin,     \* pending calls that have taken effect
+          h0,      \* line of the Reset event of the current history
+          bad      \* the search has given the current history up
+tvars == <<m, closed, l, at, lin, h0, bad>>
 Ev == Trace[l]
 CallIds == 1..MaxCalls
 Consume == l <= Len(Trace) /\ l' = l + 1
@@ -34,42 +38,59 @@ CallOf(e) == [op |-> e.op, k |-> e.k, md |-> e.md, v |-> e.v]
 Free(e) == \/ e.op = "Len" /\ ~LenStrict
            \/ e.op = "Traverse" /\ ~TravStrict
 
-TReset == /\ Consume /\ Ev.a = "Reset"
-          /\ m' = EmptyMap /\ closed' = FALSE
-          /\ at' = [c \in CallIds |-> 0] /\ lin' = {}
+(* registers: 2 = histories seen, 3 = histories for which a linearization was found *)
+Note(reg, i) == TLCSet(reg, TLCGet(reg) \cup {i})
+Fresh == /\ m' = EmptyMap /\ closed' = FALSE
+         /\ at' = [c \in CallIds |-> 0] /\ lin' = {}
+
+(* a Reset (or the End event) closes the previous history: reached without giving up *)
+(* = every event of it was explained                                                  *)
+TReset == /\ Consume /\ Ev.a \in {"Reset", "End"}
+          /\ IF h0 # 0 /\ ~bad THEN Note(3, Trace[h0].i) ELSE TRUE
+          /\ IF Ev.a = "Reset" THEN Note(2, Ev.i) ELSE TRUE
+          /\ Fresh /\ h0' = l /\ bad' = FALSE
 
 TCall == /\ Consume /\ Ev.a = "Call"
          /\ at' = [at EXCEPT ![Ev.c] = l]
-         /\ UNCHANGED <<m, closed, lin>>
+         /\ UNCHANGED <<m, closed, lin, h0, bad>>
 
 Lin(c) == /\ at[c] # 0 /\ c \notin lin
           /\ LET e == Trace[at[c]] IN
                /\ Free(e) \/ Explains(CallOf(e), e.r)
                /\ Do(CallOf(e))
           /\ lin' = lin \cup {c}
-          /\ UNCHANGED <<l, at>>
+          /\ UNCHANGED <<l, at, h0, bad>>
 
 TRet == /\ Consume /\ Ev.a = "Ret"
         /\ Ev.c \in lin
         /\ at' = [at EXCEPT ![Ev.c] = 0] /\ lin' = lin \ {Ev.c}
-        /\ UNCHANGED <<m, closed>>
+        /\ UNCHANGED <<m, closed, h0, bad>>
 
 (* after the goroutines finished: Map() is the sequential map's content (part of  *)
 (* linearizability); the reported length against the number of keys is sentence 2 *)
 (* of the statement and is reported, not searched                                 *)
+NoLen == -1000        \* the object has no length (Locked[T])
 NKeys(kv) == Cardinality({i \in 1..Len(kv) : kv[i] # NoVal})
 TFinal == /\ Consume /\ Ev.a = "Final"
           /\ \A i \in 1..Len(Keys) : Ev.kv[i] = m[Keys[i]]
-          /\ IF Ev.len = Wild \/ Ev.len = NKeys(Ev.kv) THEN TRUE
+          /\ IF Ev.len = NoLen \/ Ev.len = NKeys(Ev.kv) THEN TRUE
              ELSE PrintT(<<"MISMATCH", "final-len", l, Ev.len, NKeys(Ev.kv)>>)
-          /\ UNCHANGED <<m, closed, at, lin>>
+          /\ UNCHANGED <<m, closed, at, lin, h0, bad>>
 
-TraceInit == Init /\ l = 1 /\ at = [c \in CallIds |-> 0] /\ lin = {}
-TraceNext == TReset \/ TCall \/ TRet \/ TFinal \/ \E c \in CallIds : Lin(c)
+(* the search may give the current history up at any point: it jumps to the next  *)
+(* Reset (Trace[h0].n = number of events of the history) and the history is not   *)
+(* noted as linearizable unless another path explains it                          *)
+GiveUp == /\ h0 # 0 /\ ~bad /\ l <= Len(Trace) /\ Ev.a \notin {"Reset", "End"}
+          /\ l' = h0 + Trace[h0].n + 1 /\ bad' = TRUE
+          /\ Fresh /\ UNCHANGED h0
+
+TraceInit == Init /\ l = 1 /\ at = [c \in CallIds |-> 0] /\ lin = {} /\ h0 = 0 /\ bad = FALSE
+TraceNext == TReset \/ TCall \/ TRet \/ TFinal \/ GiveUp \/ \E c \in CallIds : Lin(c)
 TraceSpec == TraceInit /\ [][TraceNext]_tvars
 
-ASSUME TLCSet(1, 0)
-HighWater == TLCSet(1, IF l > TLCGet(1) THEN l ELSE TLCGet(1))
-Accepted == \/ TLCGet(1) = Len(Trace) + 1
-            \/ PrintT(<<"HW", TLCGet(1), Len(Trace)>>) /\ FALSE
+ASSUME TLCSet(1, 0) /\ TLCSet(2, {}) /\ TLCSet(3, {})
+(* furthest line reached without giving up (diagnosis of a single history) *)
+HighWater == bad \/ l > Len(Trace) \/ TLCSet(1, IF l > TLCGet(1) THEN l ELSE TLCGet(1))
+Accepted == /\ PrintT(<<"NOTLIN", TLCGet(2) \ TLCGet(3)>>)
+            /\ PrintT(<<"HW", TLCGet(1), Len(Trace)>>)
 =============================================================================
